@@ -6,6 +6,7 @@ package fixture
 
 import (
 	"context"
+	"io"
 	"net"
 	"strings"
 	"sync"
@@ -13,7 +14,9 @@ import (
 
 	"google.golang.org/genproto/googleapis/api/annotations"
 	"google.golang.org/grpc"
+	"google.golang.org/grpc/codes"
 	"google.golang.org/grpc/credentials/insecure"
+	"google.golang.org/grpc/status"
 	"google.golang.org/grpc/reflection"
 	rpb "google.golang.org/grpc/reflection/grpc_reflection_v1alpha"
 	"google.golang.org/protobuf/proto"
@@ -32,7 +35,7 @@ var Services = []string{"SvcA", "SvcB", "SvcC", "SvcD", "SvcE"}
 // Serves maps an owner to the services it serves ("B3alt" = B3 after its
 // service set changed).
 var Serves = map[string][]string{
-	"B1":    {"SvcA", "SvcB", "SvcD"},
+	"B1":    {"SvcA", "SvcB", "SvcD", "SvcS"},
 	"B2":    {"SvcA", "SvcE"},
 	"B3":    {"SvcB", "SvcC"},
 	"B3alt": {"SvcC"},
@@ -127,6 +130,34 @@ func MultiDesc(name string, cnt *atomic.Int64) *grpc.ServiceDesc {
 	return World.ServiceDesc("un."+name, Ping(name, cnt), nil)
 }
 
+// streamFile declares SvcS.Chat, a bidi echo served by B1 only. A message
+// with f_int32 == 999 makes the backend fail (backend-fails-first faults).
+func streamFile() *descriptorpb.FileDescriptorProto {
+	f := dyn.File("svcs.proto", "un", nil, nil, []*descriptorpb.ServiceDescriptorProto{
+		dyn.Svc("SvcS", dyn.MethodSpec{Name: "Chat", In: ".un.All", Out: ".un.All", ClientStream: true, ServerStream: true}),
+	})
+	f.Dependency = append(f.Dependency, "un.proto")
+	return f
+}
+
+func chat(full string, in, out protoreflect.MessageDescriptor, ss grpc.ServerStream) error {
+	for {
+		m := dynamicpb.NewMessage(in)
+		if err := ss.RecvMsg(m); err != nil {
+			if err == io.EOF {
+				return nil
+			}
+			return err
+		}
+		if m.Get(in.Fields().ByName("f_int32")).Int() == 999 {
+			return status.Error(codes.Aborted, "backend fails first")
+		}
+		if err := ss.SendMsg(m); err != nil {
+			return err
+		}
+	}
+}
+
 // LocalDesc returns the service descriptor of the local SvcA implementation.
 func LocalDesc() *grpc.ServiceDesc { return World.ServiceDesc("un.SvcA", Ping("local", &LocalCnt), nil) }
 
@@ -134,7 +165,7 @@ func LocalDesc() *grpc.ServiceDesc { return World.ServiceDesc("un.SvcA", Ping("l
 func Setup() {
 	once.Do(func() {
 		var err error
-		World, err = dyn.NewWorld(uni.BaseFile(), svcFile("svca.proto", "SvcA"), svcFile("svcb.proto", "SvcB"), svcFile("svcc.proto", "SvcC"), svcFile("svcde.proto", "SvcD", "SvcE"), multiFile())
+		World, err = dyn.NewWorld(uni.BaseFile(), svcFile("svca.proto", "SvcA"), svcFile("svcb.proto", "SvcB"), svcFile("svcc.proto", "SvcC"), svcFile("svcde.proto", "SvcD", "SvcE"), multiFile(), streamFile())
 		if err != nil {
 			panic(err)
 		}
@@ -147,7 +178,7 @@ func Setup() {
 				for _, s := range Serves[key] {
 					if !reg[s] {
 						reg[s] = true
-						b.Srv.RegisterService(World.ServiceDesc("un."+s, Ping(name, &b.Count), nil), nil)
+						b.Srv.RegisterService(World.ServiceDesc("un."+s, Ping(name, &b.Count), chat), nil)
 					}
 				}
 			}
